@@ -34,8 +34,11 @@ from .. import tlc
 # the eight embeddings of harness/lattice.py plus a local one in VERY small units (a layout scaled by 1e-12): the
 # tolerances of find_location must come from the design (1e-12 x smallest side), not from an absolute constant --
 # at this scale any absolute slack (almost_eq's default 1e-11) is wider than the whole lattice
-EMBEDDINGS = dict(_EMB, pico=Emb("pico", F(1, 10 ** 12)))
-ALL = list(_ALL8) + ["pico"]
+# ... and a local one FAR from the origin: lattice step 2^-11 at offset 2^20 (all coordinates exact in binary): a gap
+# of one lattice unit (4.9e-4) is far above the design tolerance but below 1e-9 x coordinate -- no RELATIVE slack on the
+# coordinates may make such a gap an abutment
+EMBEDDINGS = dict(_EMB, pico=Emb("pico", F(1, 10 ** 12)), far=Emb("far", F(1, 2 ** 11), 2 ** 20))
+ALL = list(_ALL8) + ["pico", "far"]
 
 ROLE = {"TRUNK": "T", "NORTH": "N", "SOUTH": "S", "EAST": "E", "WEST": "W", "NO_POLYGON": "X"}
 EVENTS_PER_ROUND = 60000   # observed calls per round of (run real code -> TLC verdicts); bounds memory and batch size
@@ -151,6 +154,76 @@ def _replay_event(emb, e):
     return [ev]
 
 
+def _live(emb, case):
+    """One history on a LIVE netlist (Stog.tla, section 4): load (recognition runs, everything derived from the
+    geometry has been computed once), then in-place changes through the public objects, then recognition again.
+    Module m is listed at x offset 8 (m - 1); observations are pulled back relative to that offset."""
+    from frame.geometry.geometry import Point, Rectangle
+    from frame.netlist.netlist import Netlist
+    ops = case["ops"]
+    mods = ops[0]["mods"]
+    off = [8 * m for m in range(len(mods))]
+    pb_shift = [float(emb.length(o)) for o in off]
+
+    def text(name, rs, dx):
+        rows = [_emb_rect(emb, [t[0] + dx, t[1], t[2] + dx, t[3]]) for t in rs]
+        area = sum(float(r[2]) * float(r[3]) for r in rows)
+        return "  %s: {area: %r, rectangles: [%s]}" % (name, area, ", ".join("[" + ", ".join(repr(v) for v in r) + "]" for r in rows))
+
+    doc = "Modules: {\n" + ",\n".join(text(f"M{m}", rs, off[m]) for m, rs in enumerate(mods)) + "\n}\nNets: []\n"
+    Rectangle.undefine_epsilon()
+    out = []
+    try:
+        n = Netlist(doc)
+    except Exception as e:
+        return {"exc": f"{type(e).__name__}: {e}"[:300]}
+
+    def observe():
+        obs = []
+        for m, md in enumerate(n.modules):
+            rows = []
+            for r in md.rectangles:
+                q = emb.back_rectangle(r)
+                rows.append([q[0] - off[m], q[1], q[2] - off[m], q[3], ROLE[r.location.name], 0])
+            obs.append({"ok": int(bool(md.has_stog)), "out": rows})
+        return obs
+
+    try:
+        for k, op in enumerate(ops):
+            ev = dict(op)
+            if op["op"] == "load":
+                ev["obs"] = observe()
+            elif op["op"] == "move":
+                r = n.modules[op["m"] - 1].rectangles[op["k"] - 1]
+                dx, dy = float(emb.length(op["dx"])), float(emb.length(op["dy"]))
+                if (k + case.get("salt", 0)) % 2:
+                    r.center.x += dx               # as Module.recenter_rectangles moves rectangles
+                    r.center.y += dy
+                else:
+                    r.center = Point(r.center.x + dx, r.center.y + dy)
+            elif op["op"] == "mirror":
+                md = n.modules[op["m"] - 1]
+                lo = min(r.bounding_box.ll.x for r in md.rectangles)
+                hi = max(r.bounding_box.ur.x for r in md.rectangles)
+                for r in md.rectangles:
+                    r.center.x = (lo + hi) - r.center.x     # as the flip of glbfloor does
+            elif op["op"] == "assign":
+                m = op["m"] - 1
+                n.assign_rectangles({f"M{m}": [list(_emb_rect(emb, [t[0] + off[m], t[1], t[2] + off[m], t[3]])) for t in op["rects"]]})
+            elif op["op"] == "rec":
+                n.modules[op["m"] - 1].create_stog()
+                ev["obs"] = observe()
+            else:
+                n.create_stogs()
+                ev["obs"] = observe()
+            out.append(ev)
+    except OffLattice as e:
+        return {"off": str(e)}
+    except Exception as e:
+        return {"exc": f"{type(e).__name__}: {e}"[:300]}
+    return {"net": out}
+
+
 def _orders(base):
     seen, out = set(), []
     for p in itertools.permutations(range(len(base))):
@@ -170,6 +243,11 @@ def run_case(case):
         owners = found.setdefault(k, [ev, []])[1]
         if en not in owners:
             owners.append(en)
+
+    if case["kind"] == "net":
+        for en in case["embs"]:
+            add(_live(EMBEDDINGS[en], case), en)
+        return list(found.values())
 
     if case["kind"] == "event":
         for en in case["embs"]:
@@ -350,7 +428,18 @@ def decide(ctx: Ctx, cases: list[dict]):
             for ev, embs in val:
                 ctx.count(n=len(embs))
                 stats["calls"] += len(embs)
+                if "net" in ev:
+                    t = {"kind": "net", "events": ev["net"]}
+                    t["id"] = "n" + digest(t)
+                    if t["id"] not in traces:
+                        traces[t["id"]] = (t, [embs] * len(ev["net"]), "net")
+                        stats["net_histories"] = stats.get("net_histories", 0) + 1
+                    continue
                 if "exc" in ev or "off" in ev:
+                    if c["kind"] == "net":
+                        ctx.violation("raises" if "exc" in ev else "off_lattice", {"net": c["ops"], "embeddings": embs}, ev,
+                                      {"api": "net", "embedding": embs[0], "n": 0, "repeated": False})
+                        continue
                     clause = "raises" if "exc" in ev else "off_lattice"
                     ctx.violation(clause, {"event": {k: ev[k] for k in ("in", "pre", "api")}, "embeddings": embs},
                                   {k: ev[k] for k in ("exc", "off") if k in ev}, _features(ev, embs))
@@ -359,7 +448,7 @@ def decide(ctx: Ctx, cases: list[dict]):
                 owners.append(embs)
             if not evs:
                 continue
-            t = {"events": evs}
+            t = {"kind": "calls", "events": evs}
             key = digest(t)
             if key not in traces:
                 t["id"] = key
@@ -367,6 +456,13 @@ def decide(ctx: Ctx, cases: list[dict]):
         verdicts = tlc.validate_traces(ctx, "StogTrace", "StogTrace", [t for (t, _o, _g) in traces.values()], chunk=10 ** 9)
         for key, v in verdicts.items():
             t, owners, origin = traces[key]
+            if t["kind"] == "net":
+                ctx.count(key, nontrivial=True, n=0)
+                for (l, clause) in v["fails"]:
+                    ctx.violation(clause, {"net": t["events"], "step": l, "embeddings": owners[0]},
+                                  {"obs": t["events"][l - 1].get("obs")},
+                                  {"api": "net", "embedding": owners[0][0], "n": len(t["events"][0]["mods"]), "repeated": False})
+                continue
             for ev in t["events"]:
                 stats["distinct_events"] += 1
                 yes = ev["ok"] == 1
@@ -389,6 +485,8 @@ def decide(ctx: Ctx, cases: list[dict]):
 
 def _weight(c):
     """estimated number of distinct observed calls of a case"""
+    if c["kind"] == "net":
+        return 3
     if c["kind"] != "multiset":
         return 1
     n = len(c["rects"])
@@ -413,12 +511,14 @@ def run(ctx: Ctx) -> int:
         return ctx.finish("model_checking", "replay of one recorded call")
     tier = ctx.tier
     # the property holds for the specified algorithm on the whole bounded universe (+ vacuity on the small one)
-    tlc.model_check(ctx, "Stog", "Stog_mc_vacuity", vacuity_ignore=("Emit",))
+    tlc.model_check(ctx, "Stog", "Stog_mc_vacuity", vacuity_ignore=("Emit", "EmitNet"))
     printed = []
     for size in (("quick",) if tier == "quick" else ("mid", "tall")):
         tlc.model_check(ctx, "Stog", f"Stog_mc_{size}", coverage=False)
         printed += tlc.generate(ctx, "Stog", f"Stog_gen_{size}")
     printed += tlc.generate(ctx, "Stog", "Stog_gen_wide")
+    nets = [c for c in printed if c.get("kind") == "net"]
+    printed = [c for c in printed if c.get("kind") != "net"]
     seen, uniq = set(), []
     for c in printed:
         k = json.dumps(c["rects"])
@@ -428,6 +528,12 @@ def run(ctx: Ctx) -> int:
     cases = tlc_cases(uniq)
     rng = random.Random(ctx.seed * 1000003 + 6)
     cases += random_cases(rng, 400 if tier == "quick" else 4000)
+    seen_net = set()
+    for k, c in enumerate(nets):            # histories on live netlists, one embedding each (rotating over all)
+        key = json.dumps(c["ops"])
+        if key not in seen_net:
+            seen_net.add(key)
+            cases.append({"kind": "net", "ops": c["ops"], "embs": [ALL[k % len(ALL)]], "salt": k, "origin": "tlc-net"})
     cases += comb_cases(rng, 200 if tier == "quick" else 2000)
     decide(ctx, cases)
     st = ctx.extra["observed"]
@@ -436,13 +542,15 @@ def run(ctx: Ctx) -> int:
     ctx.extra["embeddings"] = ALL
     ctx.extra["cases"] = {"tlc_multisets": len(uniq), "random": len(cases) - len(uniq)}
     ctx.assumptions += [
-        "float dimension sampled by 9 embeddings of the integer lattice (steps 1, 1.0, 1/2, 1/10, 1/3, 1e3, 1e-3, 0.1+37.3, 1e-12), not enumerated",
+        "float dimension sampled by 10 embeddings of the integer lattice (steps 1, 1.0, 1/2, 1/10, 1/3, 1e3, 1e-3, 0.1+37.3, 1e-12, 2^-11 at offset 2^20), not enumerated",
         "Rectangle tolerances as a fresh process loading the design defines them (1e-12 x smallest side; the netlist route lets Netlist define them)",
         "every TLC-enumerated multiset is run in every order, fresh and after history; lists of up to 3 rectangles under all 9 "
         "embeddings per order, lists of 4 under 2 of the 9 per order (all 9 over the orders of one multiset)",
         "universes: quick 3x2 lattice <= 3 rectangles and 4x4 <= 2; thorough 3x3 <= 3, 3x2 <= 4 and 4x4 <= 2; random orthogons and near misses up to 8 rectangles on a 40x40 lattice",
         "the netlist route (Netlist -> Module.create_stog / has_stog) is taken for one order of every multiset under 2 embeddings",
         "'every other rectangle' is read position-wise: a repeated rectangle is another rectangle",
+        "live netlists: every TLC-emitted history (load; moves / mirrors / assign_rectangles in place; Module.create_stog or Netlist.create_stogs) "
+        "on 2 modules runs on real Netlist / Module objects under one embedding; roles are judged against the CURRENT geometry",
     ]
     return ctx.finish(
         "model_checking",
